@@ -467,33 +467,45 @@ func (s *Session) WaitConsumed(timeout time.Duration) bool {
 	}
 }
 
-// searchSettled: the last issued search request has been answered and handed to the terminal.
+// readerSettled: every reader that was started has finished, and a reader was started
+// after the last reload request the terminal issued.
+func (s *Session) readerSettled() bool {
+	starts, fins := 0, 0
+	lastReload, lastStart := -1, -1
+	for i, e := range s.trace {
+		switch e.Kind {
+		case "reader.start":
+			starts++
+			lastStart = i
+		case "reader.fin":
+			fins++
+		case "term.reload":
+			lastReload = i
+		}
+	}
+	return starts > 0 && starts == fins && lastStart > lastReload
+}
+
+// searchSettled: the last issued search request was issued after the last reader finished,
+// it has been answered, and that very result was handed to the terminal.
 func (s *Session) searchSettled() bool {
-	lastReset, lastFinal := -1, false
-	for _, e := range s.trace {
-		if e.Kind == "matcher.reset" {
-			lastReset = e.A
-			lastFinal = e.B&2 != 0
+	lastReset, lastResetAt, lastFin := -1, -1, -1
+	for i, e := range s.trace {
+		switch e.Kind {
+		case "matcher.reset":
+			lastReset, lastResetAt = e.A, i
+		case "reader.fin":
+			lastFin = i
 		}
 	}
-	if lastReset < 0 {
+	if lastReset < 0 || lastResetAt < lastFin {
 		return false
 	}
-	_ = lastFinal
 	ptr := ""
-	for _, e := range s.trace {
-		if e.Kind == "matcher.publish" && e.A == lastReset {
-			ptr = e.S
-		}
-	}
-	if ptr == "" {
-		return false
-	}
-	// the terminal received that very merger, after the publish
 	seen := false
 	for _, e := range s.trace {
 		if e.Kind == "matcher.publish" && e.A == lastReset {
-			seen = true
+			ptr, seen = e.S, true
 		}
 		if seen && e.Kind == "term.update_list" && e.S == ptr {
 			return true
@@ -510,7 +522,7 @@ func (s *Session) WaitQuiescent(timeout time.Duration) (*Status, bool) {
 	lastLen := -1
 	for {
 		s.readTrace()
-		ok := s.consumedBatches() >= s.Posted && s.searchSettled()
+		ok := s.consumedBatches() >= s.Posted && s.readerSettled() && s.searchSettled()
 		if ok {
 			if len(s.trace) != lastLen {
 				lastLen = len(s.trace)
@@ -532,7 +544,7 @@ func (s *Session) WaitQuiescent(timeout time.Duration) (*Status, bool) {
 			}
 		} else {
 			lastLen = -1
-			s.LastWait = fmt.Sprintf("consumed %d of %d batches, search settled=%v", s.consumedBatches(), s.Posted, s.searchSettled())
+			s.LastWait = fmt.Sprintf("consumed %d of %d batches, reader settled=%v, search settled=%v", s.consumedBatches(), s.Posted, s.readerSettled(), s.searchSettled())
 		}
 		if _, exited := s.ExitCode(); exited {
 			return nil, false
